@@ -94,19 +94,54 @@ def run(binary, scripts, tag, nproc=vlib.NCPU, timeout=600):
     e.update({"XCM_CTL": "/nonexistent-verif", "VERIF_RUN_DIR": d, "XCM_TLS_CERT": vlib.BUILD + "/creds/default",
               "ASAN_OPTIONS": "detect_leaks=0:abort_on_error=0:detect_stack_use_after_return=1:handle_abort=0:handle_segv=0:exitcode=3",
               "UBSAN_OPTIONS": "print_stacktrace=1:halt_on_error=1:suppressions=%s/shim/ubsan.supp" % vlib.V})
-    procs = []
-    for i in range(nproc):
-        sp = "%s/w%d.script" % (d, i)
-        with open(sp, "w") as f:
-            f.write("\n".join(scripts[i::nproc]) + "\n")
+    import concurrent.futures
+    import re
+
+    def worker(i):
+        """a hang or crash of the library costs one execution: the rest of the chunk is run by a fresh process"""
         tp = "%s/w%d.ndjson" % (d, i)
-        lp = open("%s/w%d.log" % (d, i), "w")
-        procs.append((subprocess.Popen(["timeout", str(timeout), binary, sp, tp], stdout=lp, stderr=subprocess.STDOUT, env=e), tp, lp))
-    traces = []
-    for p, tp, lp in procs:
-        p.wait()
-        lp.close()
-        traces.append(tp)
+        rest = scripts[i::nproc]
+        attempt = 0
+        with open(tp, "w") as tout, open("%s/w%d.log" % (d, i), "w") as lp:
+            while rest and attempt < 40:
+                sp = "%s/w%d.%d.script" % (d, i, attempt)
+                with open(sp, "w") as f:
+                    f.write("\n".join(rest) + "\n")
+                part = "%s/w%d.%d.part" % (d, i, attempt)
+                rc = subprocess.call(["timeout", str(timeout), binary, sp, part], stdout=lp, stderr=subprocess.STDOUT, env=e)
+                last = None
+                try:
+                    for line in open(part):
+                        try:
+                            json.loads(line)
+                        except ValueError:
+                            k = line.rfind('{"x":')
+                            if k <= 0:
+                                continue
+                            line = line[k:]
+                            try:
+                                json.loads(line)
+                            except ValueError:
+                                continue
+                        if attempt > 0 and '"op":"selftest"' in line:
+                            continue
+                        tout.write(line)
+                        m = re.match(r'\{"x":(\d+),"n":0,"op":"X"', line)
+                        if m:
+                            last = int(m.group(1))
+                except FileNotFoundError:
+                    pass
+                attempt += 1
+                if rc == 0 or last is None:
+                    break
+                ids = [int(x.split()[1]) for x in rest]
+                if last not in ids:
+                    break
+                rest = rest[ids.index(last) + 1:]
+        return tp
+
+    with concurrent.futures.ThreadPoolExecutor(max_workers=nproc) as ex:
+        traces = list(ex.map(worker, range(nproc)))
     batch = "%s/batch.ndjson" % d
     n = 0
     with open(batch, "w") as o:
